@@ -111,6 +111,14 @@ pub fn contents() -> Vec<Vec<El>> {
         vec![T(vec![I(1), S("b")])],
         vec![I(1), F(1.0)],
         vec![F(1.0), I(1)],
+        // the same sub-container at several positions (equal at the first occurrence, different or longer at a later one)
+        vec![A(vec![I(0), I(0)]), A(vec![I(0), I(0)])],
+        vec![A(vec![I(0), I(0)]), A(vec![I(0), I(1)])],
+        vec![A(vec![I(0), I(0)]), A(vec![I(0), I(0), I(0)])],
+        vec![A(vec![I(0), I(0)]), A(vec![I(0), I(0)]), A(vec![I(0), I(0)])],
+        vec![A(vec![I(0), I(0)]), A(vec![I(0), I(0)]), A(vec![I(1), I(0)])],
+        vec![T(vec![I(1), S("a")]), T(vec![I(1), S("a")])],
+        vec![T(vec![I(1), S("a")]), T(vec![I(1), S("b")])],
         // structs (separately built, fields written in different orders, nested, inside tuples)
         vec![R(vec![("x", I(1)), ("y", I(2))])],
         vec![R(vec![("y", I(2)), ("x", I(1))])],
@@ -125,9 +133,9 @@ pub fn contents() -> Vec<Vec<El>> {
     ]
 }
 
-pub const PATHS: [&str; 16] = [
+pub const PATHS: [&str; 17] = [
     "literal", "concat0", "concat1", "concat-end", "slice", "collect", "map-id", "filter-all", "type-filter-any", "partition.0", "partition.1", "repeat",
-    "cell-read", "fn-[any]", "fn-any", "slice-all",
+    "cell-read", "fn-[any]", "fn-any", "slice-all", "shared-element",
 ];
 
 /// expression producing an array with the given content along the given path (None: path not applicable)
@@ -170,6 +178,14 @@ fn build(content: &[El], path: &str, hidden: bool) -> Option<String> {
         "cell-read" => format!("(*(mut [any] {}))", lit(content)),
         "fn-[any]" => format!("((() -> [any] {{ return {} }})())", lit(content)),
         "fn-any" => format!("((() -> any {{ return {} }})())", lit(content)),
+        // every element that equals the first one *is* the first one (one stored value at several positions)
+        "shared-element" => {
+            if n < 2 || !matches!(content[0], El::A(_) | El::T(_) | El::R(_)) || content[0].has_nan() {
+                return None;
+            }
+            let els: Vec<String> = content.iter().map(|e| if e.eq(&content[0]) { "row".to_string() } else { e.text(hidden) }).collect();
+            format!("((() -> [any] {{ row := {}; return [{}] }})())", content[0].text(hidden), els.join(", "))
+        }
         _ => return None,
     })
 }
